@@ -117,6 +117,10 @@ func Eval(src string, eo EvalOpts) (obs N) {
 	out := Cps(string(stdout.Bytes()))
 	if err != nil {
 		if ctx.Err() != nil {
+			// an endless loop that prints produces megabytes: the observation keeps the beginning only
+			if len(out) > 256 {
+				out = out[:256]
+			}
 			return N{"k": "timeout", "out": out}
 		}
 		return N{"k": "raise", "v": ErrKind(err), "msg": err.Error(), "out": out}
@@ -198,6 +202,9 @@ func EvalRoute(src string, route string) (obs N) {
 	out := Cps(string(stdout.Bytes()[skip:]))
 	if err != nil {
 		if ctx.Err() != nil {
+			if len(out) > 256 {
+				out = out[:256]
+			}
 			return N{"k": "timeout", "out": out, "route": route}
 		}
 		return N{"k": "raise", "v": ErrKind(err), "msg": err.Error(), "out": out, "route": route}
